@@ -12,10 +12,13 @@ A run is ONE line: the mailbox names, then one word per step in the order the ha
   step       A:<mb>:<flags>:<hex literal>:<ans>          APPEND
              B:<mb>:<flags>:<digest,…>:<ans>             messages created through the connector (population)
              S:<mb>:<add|rem|set>:<flags>:<uids>:<ans>   STORE / UID STORE (.SILENT or not)
-             X:<mb>:<sync|stale>:<all|set>:<named>:<uids>:<ans>   EXPUNGE / CLOSE (`all`) / UID EXPUNGE (`set`)
+             X:<mb>:<sync|stale>:<all|close|set>:<named>:<uids>:<ans>   EXPUNGE (`all`) / CLOSE (`close`) / UID EXPUNGE (`set`)
              C:<src>:<dst>:<uids>:<ans>                  COPY / UID COPY
              M:<src>:<dst>:<uids>:<ans>                  MOVE / UID MOVE
              K:<dump>                                    checkpoint: what a FRESH session saw
+             W:<i>                                       the following steps are commands of session <i>
+             O:<sel|exa>:<mb>:<ans>:<kept|dropped|none>  SELECT / EXAMINE of <mb> (`-` = the command without an argument);
+                                                         refused: did the server keep the mailbox that was open?
   flags      `,`-joined as sent, `-` = none
   uids       the UIDs (in the issuing session's view, view order) of the messages the command's set selects; for
              X the selected messages the view shows as \Deleted; `-` = none.  A UID the mailbox no longer has (the
@@ -27,7 +30,9 @@ A run is ONE line: the mailbox names, then one word per step in the order the ha
              limits which messages a session can name, it never decides what is `\Deleted`).  `uids` — what the
              session's view shows as `\Deleted` — is what the MODEL of the code runs on (`Mailbox.Expunge` takes the
              snapshot's marks); the judge reports the first X step at which `uids` differs from the authoritative
-             `\Deleted` entries among `named` as `expunge-view=…` next to the verdict.
+             `\Deleted` entries among `named` as `expunge-view=…` next to the verdict.  A UID of `uids` the mailbox no
+             longer has is an entry whose removal is pending in the session (`State.pendingExpunges`, gluon 9c5a27f):
+             the model drops it as the code does (`Sel.notPending`).
   ans        ok | no | bad (what the server answered; ignored by c03-model) | nofault (answered NO because the harness
              made the transaction that queues the state updates fail: a legitimate NO; c03-model runs the step with
              `Second.fails`)
@@ -35,10 +40,21 @@ A run is ONE line: the mailbox names, then one word per step in the order the ha
              \deleted; the third field is \Deleted; digest = FNV-1a 64 of the literal without the X-Pm-Gluon-Id line
   answers    `,`-joined ok|no|bad|oos, one per non-K step, `-` = none
 
+  <mb> of S / X / C / M is the mailbox the harness believes the session has open (`-` = none).  The PROTOCOL STATE is
+  kept by the two runs themselves: the judge follows `Spec/MailboxRefProto.lean` (a SELECT / EXAMINE answered OK opens
+  the mailbox read-write / read-only, CLOSE answered OK closes it, a command answered NO / BAD changes nothing; STORE,
+  EXPUNGE, UID EXPUNGE and MOVE may be answered OK only in a read-write session, CLOSE of a read-only session removes
+  nothing, COPY from a read-only session may be answered either way), the model follows `Model/SelState.lean`
+  (`State.Select` / `State.Examine` / the handlers' read-only checks).  A session command whose <mb> is not the mailbox
+  the reference has open for that session is reported as `cause=protocol-state` (the server kept or dropped a mailbox
+  where the reference does not).
+
 In both runs the bytes of a message are represented by their digest.  Core Lean only.
 -/
 import GluonModel.Model.ActionsAbs
 import GluonModel.Model.DBFacts
+import GluonModel.Model.SelState
+import GluonModel.Spec.MailboxRefProto
 
 -- DIALECT: c03-model runC03Model
 -- DIALECT: judge-c03-content judgeC03Content
@@ -68,7 +84,9 @@ inductive Step where
   | append (mb : String) (flags : List String) (digest : String) (ans : String)
   | bulk (mb : String) (flags : List String) (digests : List String) (ans : String)
   | store (mb : String) (op : String) (flags : List String) (uids : List Nat) (ans : String)
-  | expunge (mb : String) (sync all : Bool) (named uids : List Nat) (ans : String)
+  | expunge (mb : String) (sync all close : Bool) (named uids : List Nat) (ans : String)
+  | who (i : Nat)
+  | openMb (ro : Bool) (mb : String) (ans : String) (after : String)
   | copy (src dst : String) (uids : List Nat) (ans : String)
   | move (src dst : String) (uids : List Nat) (ans : String)
   | check (dump : String)
@@ -81,7 +99,10 @@ def parseStep (w : String) : Step :=
   | ["A", mb, fl, hex, ans] => .append mb (splitList fl) (digestOfHex hex) ans
   | ["B", mb, fl, ds, ans] => .bulk mb (splitList fl) (splitList ds) ans
   | ["S", mb, op, fl, us, ans] => .store mb op (splitList fl) (nats us) ans
-  | ["X", mb, mode, what, named, us, ans] => .expunge mb (mode == "sync") (what == "all") (nats named) (nats us) ans
+  | ["X", mb, mode, what, named, us, ans] =>
+    .expunge mb (mode == "sync") (what != "set") (what == "close") (nats named) (nats us) ans
+  | ["W", i] => .who (i.toNat?.getD 0)
+  | ["O", kind, mb, ans, after] => .openMb (kind == "exa") mb ans after
   | ["C", src, dst, us, ans] => .copy src dst (nats us) ans
   | ["M", src, dst, us, ans] => .move src dst (nats us) ans
   | "K" :: rest => .check (":".intercalate rest)
@@ -105,6 +126,15 @@ abbrev UidLog := List ((String × Nat) × Nat)
 structure RefRun where
   st : MailboxRef.State
   log : UidLog := []
+  /-- the reference's protocol state per session (`Spec/MailboxRefProto.lean`) -/
+  protos : List (Nat × MailboxRef.Proto) := []
+  /-- the session that issues the following steps -/
+  cur : Nat := 0
+
+def RefRun.proto (r : RefRun) : MailboxRef.Proto := (r.protos.lookup r.cur).getD {}
+
+def RefRun.setProto (r : RefRun) (p : MailboxRef.Proto) : RefRun :=
+  { r with protos := (r.cur, p) :: r.protos.filter (·.1 != r.cur) }
 
 /-- every (mailbox, UID) of the state that the log does not have yet (new entries sit at the end, above the old UIDNEXT) -/
 def logNew (old new : MailboxRef.State) (log : UidLog) : UidLog :=
@@ -121,15 +151,10 @@ def resolveRef (r : RefRun) (mb : String) (uids : List Nat) : List MailboxRef.Ms
 
 def hasRecent (flags : List String) : Bool := flags.any fun f => MailboxRef.lower f == MailboxRef.recentKey
 
-/-- what the reference expects the server to answer -/
+/-- what the reference expects the server to answer to APPEND / connector creations (no protocol state involved) -/
 def expectAns (st : MailboxRef.State) : Step → String
   | .append mb fl _ _ => if hasRecent fl then "bad" else if st.hasMailbox mb then "ok" else "no"
-  | .store _ _ fl _ _ => if hasRecent fl then "bad" else "ok"
-  | .copy _ dst _ _ => if st.hasMailbox dst then "ok" else "no"
-  | .move _ dst _ _ => if st.hasMailbox dst then "ok" else "no"
   | _ => "ok"
-
-def opOf (s : String) : MailboxRef.StoreOp := if s == "add" then .add else if s == "rem" then .remove else .set
 
 /-- the UIDs of the authoritative `\Deleted` entries of `mb` among `named` -/
 def authDeleted (st : MailboxRef.State) (mb : String) (named : List Nat) : List Nat :=
@@ -145,28 +170,64 @@ def expungeTarget (st : MailboxRef.State) (mb : String) (sync all : Bool) (named
     | some b => (b.entries.filter fun e => e.deleted && named.contains e.uid).map (·.msg)
     | none => []
 
-/-- the reference command of a step (message sets resolved), `none` for checkpoints -/
-def refCmds (r : RefRun) : Step → List MailboxRef.Cmd
+/-- the reference commands of a step that does not depend on a session (message sets resolved) -/
+def refCmds (_r : RefRun) : Step → List MailboxRef.Cmd
   | .append mb fl d _ => [.append mb fl d]
   | .bulk mb fl ds _ => ds.map fun d => .append mb fl d
-  | .store mb op fl us _ => [.store mb (resolveRef r mb us) (opOf op) fl]
-  | .expunge mb sync all named _ _ => [.expunge mb (expungeTarget r.st mb sync all named)]
-  | .copy src dst us _ => [.copy src dst (resolveRef r src us)]
-  | .move src dst us _ => [.move src dst (resolveRef r src us)]
   | _ => []
+
+def opOf (s : String) : MailboxRef.StoreOp := if s == "add" then .add else if s == "rem" then .remove else .set
+
+/-- the mailbox the harness believes the issuing session has open (`-` = none) -/
+def stepMb : Step → Option String
+  | .store mb _ _ _ _ => some mb
+  | .expunge mb _ _ _ _ _ _ => some mb
+  | .copy src _ _ _ => some src
+  | .move src _ _ _ => some src
+  | _ => none
+
+/-- the command of the session layer of a step (message sets resolved against the mailbox the REFERENCE has open) -/
+def sessCmdOf (r : RefRun) : Step → Option MailboxRef.SessCmd
+  | .openMb ro mb _ _ => some (if ro then .examine mb else .select mb)
+  | .store _ op fl us _ => some (.store (resolveRef r (r.proto.selected.getD "-") us) (opOf op) fl)
+  | .expunge _ sync all close named _ _ =>
+    let msgs := expungeTarget r.st (r.proto.selected.getD "-") sync all named
+    some (if close then .close msgs else .expunge msgs)
+  | .copy _ dst us _ => some (.copy dst (resolveRef r (r.proto.selected.getD "-") us))
+  | .move _ dst us _ => some (.move dst (resolveRef r (r.proto.selected.getD "-") us))
+  | _ => none
+
+/-- the answers the reference accepts for a command of the session layer: OK only where `permits` says so; a STORE
+    naming `\Recent` and a SELECT / EXAMINE without an argument are BAD; COPY from a read-only session may be refused
+    (gluon does) or done (RFC 3501) -/
+def acceptedAns (r : RefRun) (st : Step) (c : MailboxRef.SessCmd) : List String :=
+  let p := r.proto
+  let permitted := MailboxRef.permits r.st p c
+  match st with
+  | .openMb _ mb _ _ => if mb == "-" then ["bad"] else if permitted then ["ok"] else ["no"]
+  | .store _ _ fl _ _ =>
+    if hasRecent fl then (if permitted then ["bad"] else ["no", "bad"]) else if permitted then ["ok"] else ["no"]
+  | .copy _ _ _ _ => if !permitted then ["no"] else if p.readOnly then ["ok", "no"] else ["ok"]
+  | _ => if permitted then ["ok"] else ["no"]
 
 def stepAns : Step → String
   | .append _ _ _ a => a
   | .bulk _ _ _ a => a
   | .store _ _ _ _ a => a
-  | .expunge _ _ _ _ _ a => a
+  | .expunge _ _ _ _ _ _ a => a
   | .copy _ _ _ a => a
   | .move _ _ _ a => a
+  | .openMb _ _ a _ => a
   | _ => "ok"
 
 def refAdvance (r : RefRun) (st : Step) : RefRun :=
   let new := MailboxRef.refRun r.st (refCmds r st)
-  { st := new, log := logNew r.st new r.log }
+  { r with st := new, log := logNew r.st new r.log }
+
+/-- a command of the session layer that was answered OK: its `effect` -/
+def refAdvanceSess (r : RefRun) (c : MailboxRef.SessCmd) : RefRun :=
+  let e := MailboxRef.effect r.st r.proto c
+  { (r.setProto e.1) with st := e.2, log := logNew r.st e.2 r.log }
 
 /-! ### comparing a dump with the reference state -/
 
@@ -210,7 +271,7 @@ def showNats (l : List Nat) : String := if l.isEmpty then "-" else ",".intercala
     EXPUNGE-class step show, among the messages it names and the mailbox still holds, exactly the authoritative
     `\Deleted` ones? -/
 def expungeViewNote (st : MailboxRef.State) (i : Nat) : Step → Option String
-  | .expunge mb _ _ named us _ =>
+  | .expunge mb _ _ _ named us _ =>
     let cur := ((st.mailbox? mb).map (·.entries)).getD []
     let viewDel := us.filter fun u => cur.any (·.uid == u)
     let auth := authDeleted st mb named
@@ -229,14 +290,37 @@ def judgeLoop : List Step → Nat → RefRun → Verdict → Verdict
       if want == dump then
         judgeLoop rest (i + 1) r { v with checks := v.checks + 1, msgs := v.msgs + (r.st.mailboxes.map (·.2.entries.length)).sum }
       else { v with bad := some s!"cause=content {firstDiff want dump} step={i} checkpoint={v.checks + 1}" }
+    | .who k => judgeLoop rest i { r with cur := k } v
     | _ =>
       let v := if v.note.isSome then v else { v with note := expungeViewNote r.st i st }
-      let want := expectAns r.st st
       let got := stepAns st
-      if got == "nofault" then judgeLoop rest (i + 1) r { v with steps := v.steps + 1, refused := v.refused + 1 }
-      else if want != got then { v with bad := some s!"cause=answer step={i} want={want} got={got}" }
-      else if got == "ok" then judgeLoop rest (i + 1) (refAdvance r st) { v with steps := v.steps + 1 }
-      else judgeLoop rest (i + 1) r { v with steps := v.steps + 1, refused := v.refused + 1 }
+      match sessCmdOf r st with
+      | none =>
+        -- APPEND / connector creations
+        let want := expectAns r.st st
+        if got == "nofault" then judgeLoop rest (i + 1) r { v with steps := v.steps + 1, refused := v.refused + 1 }
+        else if want != got then { v with bad := some s!"cause=answer step={i} want={want} got={got}" }
+        else if got == "ok" then judgeLoop rest (i + 1) (refAdvance r st) { v with steps := v.steps + 1 }
+        else judgeLoop rest (i + 1) r { v with steps := v.steps + 1, refused := v.refused + 1 }
+      | some c =>
+        let p := r.proto
+        let mode := if p.selected.isNone then "none" else if p.readOnly then "read-only" else "read-write"
+        let believed := (stepMb st).map fun mb => if mb == "-" then none else some mb
+        if believed.isSome && believed != some p.selected then
+          { v with bad := some s!"cause=protocol-state step={i} session={r.cur} server-has-open={(stepMb st).getD "-"} reference-has-open={p.selected.getD "-"}" }
+        else if got == "nofault" then judgeLoop rest (i + 1) r { v with steps := v.steps + 1, refused := v.refused + 1 }
+        else
+        let acc := acceptedAns r st c
+        if !acc.contains got then
+          { v with bad := some s!"cause=answer step={i} want={"|".intercalate acc} got={got} session={r.cur} open={p.selected.getD "-"} mode={mode}" }
+        else if got == "ok" then judgeLoop rest (i + 1) (refAdvanceSess r c) { v with steps := v.steps + 1 }
+        else
+          -- refused: nothing changes; a refused SELECT / EXAMINE after which the server has no mailbox open any more
+          -- (RFC 3501 §6.3.1; gluon keeps the old one) is accepted as well
+          let r := match st with
+            | .openMb _ _ _ "dropped" => r.setProto {}
+            | _ => r
+          judgeLoop rest (i + 1) r { v with steps := v.steps + 1, refused := v.refused + 1 }
 
 def initRef (mailboxes : List String) : RefRun :=
   { st := { mailboxes := mailboxes.map fun n => (n, {}) } }
@@ -252,6 +336,14 @@ abbrev PairLog := List ((String × Nat) × (Nat × String))
 structure ModelRun where
   st : Act.State
   log : PairLog := []
+  /-- `state.State` (`snap`, `ro`) per session (`Model/SelState.lean`) -/
+  sess : List (Nat × Sel.Sess) := []
+  cur : Nat := 0
+
+def ModelRun.session (r : ModelRun) : Sel.Sess := (r.sess.lookup r.cur).getD {}
+
+def ModelRun.setSession (r : ModelRun) (x : Sel.Sess) : ModelRun :=
+  { r with sess := (r.cur, x) :: r.sess.filter (·.1 != r.cur) }
 
 def tableOf (s : Act.State) (mb : String) : Option MTable :=
   match s.db.mailboxes.find? (·.name == mb) with
@@ -291,13 +383,29 @@ def bulkCreate (s : Act.State) (mb : String) (flags : List String) (digests : Li
 
 def secondOf (ans : String) : Second := { fails := ans == "nofault" }
 
+/-- `State.pendingExpunges` of the issuing session: every step runs after a barrier (each session has taken every queued
+    update into `state.res`), so an entry of the view whose UID the mailbox no longer has is one whose removal is pending -/
+def pendingOf (r : ModelRun) (mb : String) (uids : List Nat) : List MessageId :=
+  let rows := ((tableOf r.st mb).map (·.rows)).getD []
+  uids.filterMap fun u =>
+    if rows.any (·.uid == u) then none else (r.log.lookup (mb, u)).map (·.1)
+
+/-- the command of the session layer of a step (message sets resolved against the mailbox the MODEL has selected) -/
+def selCmdOf (r : ModelRun) : Step → Option Sel.Cmd
+  | .openMb ro mb _ _ => some (if ro then .examine mb else .select mb)
+  | .store _ op fl us _ => some (.store (resolveM r (r.session.snap.getD "-") us) (actionOf op) fl)
+  | .expunge _ _ _ close _ us _ =>
+    let mb := r.session.snap.getD "-"
+    let msgs := resolveM r mb us
+    let pending := pendingOf r mb us
+    some (if close then .close msgs pending else .expunge msgs pending)
+  | .copy _ dst us _ => some (.copy dst (resolveM r (r.session.snap.getD "-") us))
+  | .move _ dst us _ => some (.move dst (resolveM r (r.session.snap.getD "-") us))
+  | _ => none
+
 def modelStep (r : ModelRun) : Step → Option (Answer × Act.State)
   | .append mb fl d a => some (Act.step env r.st (.append mb fl { bytes := d }) (secondOf a))
   | .bulk mb fl ds _ => some (bulkCreate r.st mb fl ds)
-  | .store mb op fl us a => some (Act.step env r.st (.store mb (resolveM r mb us) (actionOf op) fl) (secondOf a))
-  | .expunge mb _ _ _ us a => some (Act.step env r.st (.expunge mb (resolveM r mb us)) (secondOf a))
-  | .copy src dst us a => some (Act.step env r.st (.copy src dst (resolveM r src us)) (secondOf a))
-  | .move src dst us a => some (Act.step env r.st (.move src dst (resolveM r src us)) (secondOf a))
   | _ => none
 
 def showAnswer : Answer → String
@@ -306,16 +414,34 @@ def showAnswer : Answer → String
   | .bad => "bad"
   | .outOfScope => "oos"
 
+/-- commands the command parser answers BAD before any handler runs (imap/command): SELECT / EXAMINE without a mailbox,
+    STORE with `\\Recent` in its flag list ("Recent Flag is not allowed in this context") -/
+def parserRefuses : Step → Bool
+  | .openMb _ mb _ _ => mb == "-"
+  | .store _ _ fl _ _ => hasRecent fl
+  | _ => false
+
+def showSelAnswer : Sel.Answer → String
+  | .of a => showAnswer a
+  | .readOnly => "no"
+
 def modelLoop : List Step → ModelRun → List String → List String → List String × List String
   | [], _, as, ds => (as.reverse, ds.reverse)
   | st :: rest, r, as, ds =>
     match st with
     | .check _ => modelLoop rest r as (dumpState (Gluon.C03.abs r.st) :: ds)
     | .junk _ => modelLoop rest r ("junk" :: as) ds
+    | .who k => modelLoop rest { r with cur := k } as ds
     | _ =>
-      match modelStep r st with
-      | some (a, s') => modelLoop rest { st := s', log := logNewM r.st s' r.log } (showAnswer a :: as) ds
-      | none => modelLoop rest r as ds
+      if parserRefuses st then modelLoop rest r ("bad" :: as) ds else
+      match selCmdOf r st with
+      | some c =>
+        let (a, x, s') := Sel.step env r.st r.session c (secondOf (stepAns st))
+        modelLoop rest { (r.setSession x) with st := s', log := logNewM r.st s' r.log } (showSelAnswer a :: as) ds
+      | none =>
+        match modelStep r st with
+        | some (a, s') => modelLoop rest { r with st := s', log := logNewM r.st s' r.log } (showAnswer a :: as) ds
+        | none => modelLoop rest r as ds
 
 def initModel (mailboxes : List String) : ModelRun :=
   let db := mailboxes.foldl (fun db n =>
